@@ -53,6 +53,30 @@ def ephemeral_guards(body):
     return edges
 
 
+def rule_ttl_decision_final(run):
+    # the decision is taken on the frame's final ttl: no write to `<frame>.ttl` follows the point where the ttl is read for it
+    ab0 = C.body_or_fail(run, C.APPEND)
+    ab0.defs()
+    ttl_writes = [(bi, sp) for (bi, si, lhs, rv, sp) in ab0.field_writes
+                  if lhs["p"] and isinstance(lhs["p"][-1], dict) and lhs["p"][-1].get("n") == "ttl" and lhs["p"][-1].get("adt") == C.FRAME and bi in ab0.live_blocks()]
+    reads = []
+    for bb, si in ab0.switches():
+        cond = strip(si["cond"])
+        if si["kind"] == "bool":
+            cm = q.comparison(cond)
+            if cm and any(q.last_field(x) == "ttl" for x in (cm[1], cm[2])) and any(
+                    y[0] == "agg" and y[1].get("adt") == C.TTL and y[1].get("variant") == "Ephemeral" for x in (cm[1], cm[2]) for y in walk(x)):
+                # the comparison is evaluated where its call sits (a `let durable = ..` may be far from the `if durable`)
+                site = cond[1].bb if cond[0] == "call" else bb
+                reads.append((site, ab0.blocks[site]["term"]["sp"]))
+        elif si["kind"] == "variant" and si.get("adt") == C.TTL and q.has_field(si["cond"], "ttl"):
+            reads.append((bb, ab0.blocks[bb]["term"]["sp"]))
+    stale = [(rs, ws) for (rb, rs) in reads for (wb, ws) in ttl_writes if q.reaches(ab0, rb, wb)]
+    run.ob("%s|ephemeral-test-on-final-ttl" % C.APPEND, bool(reads) and not stale, ab0.sp,
+           "append decides `store or not` on the ttl the frame ends up with: no assignment to frame.ttl (the xs.context branch forces Forever) follows the test (%s)" % stale,
+           reason="ephemeral-decision-on-stale-ttl")
+
+
 def r1(run):
     callers = C.callers_of(run.facts, C.INSERT_FRAME)
     run.floor("Store::insert_frame call sites", len(callers), 2)
@@ -62,6 +86,7 @@ def r1(run):
         ok = never_for_ephemeral(b, c.bb)
         run.ob("%s|call:Store::insert_frame" % fn, ok, c.sp,
                "the frame reaches Store::insert_frame only through a `ttl != Ephemeral` edge in %s" % fn, reason="ephemeral-may-be-stored")
+    rule_ttl_decision_final(run)
     # the batch insert itself lives only in insert_frame
     holders = set()
     for b in run.facts.all_bodies():
